@@ -96,3 +96,47 @@ func vh_C13_Timeout() {
 	vfAssert("actor-still-serves", vfAnd(err2 == nil, r2 == vfFn("R", fresh)))
 	vfReach("end")
 }
+
+// a timeout asker whose request waits behind another asker's slow request (the actor's mailbox is unbuffered, so
+// the second Send itself blocks while the actor is busy): whatever the asker is told, the actor must go on serving
+func vh_C13_BusyActor() {
+	served := 0
+	actor := c13Actor(200*time.Millisecond, false, &served)
+	slowA, msgB, fresh := vfInt("slowA"), vfInt("msgB"), vfInt("fresh")
+	vfAssume(slowA < 0)
+	vfAssume(fresh >= 0)
+	bSlow := vfChoose("b-slow", 2) == 1
+	if bSlow {
+		vfAssume(msgB < 0)
+	} else {
+		vfAssume(msgB >= 0)
+	}
+	var rA int
+	doneA := make(chan struct{})
+	go func() {
+		rA = AskNewGenerics[int, int](slowA).AskOnce(actor)
+		close(doneA)
+	}()
+	time.Sleep(50 * time.Millisecond) // the actor is now busy with A until t = 200 ms
+	var rB int
+	var errB error
+	if !vfNoPanic("nopanic-ask", func() {
+		rB, errB = AskNewGenerics[int, int](msgB).AskOnceWithTimeout(actor, 60*time.Millisecond)
+	}) {
+		return
+	}
+	vfAssert("reply-or-clean-timeout", vfOr(vfAnd(errB == nil, rB == vfFn("R", msgB)), vfAnd(errB == ErrActorAskTimeout, rB == 0)))
+	if bSlow {
+		// accepted at 200 ms at the earliest, answered 200 ms later: never within 60 ms of anything
+		vfAssert("late-timeout-error", errB == ErrActorAskTimeout)
+	}
+	<-doneA
+	vfAssert("first-asker-own-reply", rA == vfFn("R", slowA))
+	time.Sleep(900 * time.Millisecond) // any late reply to B is produced (and must be discarded) by now
+	vfQuiesce()
+	var r2 int
+	var err2 error
+	vfNoPanic("nopanic-later-ask", func() { r2, err2 = AskNewGenerics[int, int](fresh).AskOnceWithTimeout(actor, time.Second) })
+	vfAssert("actor-still-serves", vfAnd(err2 == nil, r2 == vfFn("R", fresh)))
+	vfReach("end")
+}
